@@ -71,6 +71,7 @@ def _transports(ctx, c, direction, length, retry=True):
     from stubs import env
     sd, idv = env.install()
     env.ENV.reset(_FailFirst() if retry else None)
+    env.ENV.lun = ctx.int("lun", 16)   # the logical unit number is the URL's, any value
     before = (c.cdb, c.dataout, c.datain, blen(c.datain), blen(c.dataout) if _is_buffer(c.dataout) else None)
     if retry:
         d0 = sd.SCSIDevice("/dev/sg0")
@@ -95,6 +96,7 @@ def _transports(ctx, c, direction, length, retry=True):
     idev.execute(c)
     t = env.ENV.iscsi_tasks[-1]
     ctx.check("iSCSI: task carries the command's cdb object", t.cdb is c.cdb)
+    ctx.check("iSCSI: the task is addressed to the URL's logical unit", t.lun is env.ENV.lun)
     ctx.check("iSCSI: binding receives the command's dataout object", t.dataout is c.dataout)
     ctx.check("iSCSI: binding receives the command's datain object", t.datain is c.datain)
     want_dir = {"none": 0, "in": 1, "out": 2}
@@ -169,7 +171,14 @@ def h_fresh_buffers(ctx, cmd, size):
         a[kind[2]] = min(size, (1 << L.width(spec["fields"][kind[2]])) - 1)
     elif kind[:2] == ("in", "blocks"):
         e["blocksize"], a["tl"] = 512, max(1, size // 512)
+    # a command with a composed parameter list exists already (its buffers must not be anybody else's)
+    pro = L.CDB["PERSISTENT RESERVE OUT"]
+    other = K.build(pro, K.lookup_opcode(pro, "spc"), {"service_action": 0, "scope": 0, "pr_type": 1}, {})
     c1 = K.build(spec, opcode, a, e)
+    if kind[0] != "out":
+        ctx.check("a command without data-out phase has an empty data-out buffer whatever was built before",
+                  len(c1.dataout) == ctx.oracle(0))
+    ctx.check("the earlier command keeps its own parameter list", len(other.dataout) == ctx.oracle(24))
     n = len(c1.datain)
     fill = ctx.int("fill", 8, lo=1)
     if n:
